@@ -92,6 +92,11 @@ M["GraphMap::all_edges"] = lambda m, r: m.world.list_iter([TUP(e[0], e[1], Ref(e
 
 def _is_outgoing(d):
     d = deref(d)
+    if isinstance(d, Agg) and d.tag is None:          # an enum the crate does not define is built by variant name
+        if d.ty.endswith("Outgoing"): return True
+        if d.ty.endswith("Incoming"): return False
+        raise Unsupported(f"petgraph Direction value {d!r}")
+    if isinstance(d, int): return d == 0
     return d.tag == 0       # petgraph::Direction { Outgoing = 0, Incoming = 1 }
 
 
@@ -217,7 +222,7 @@ def pg_index(m, r, n):
     return Ref(g.nodes, i)
 
 
-M["<Graph as Index<NodeIndex>>::index"] = pg_index
+M["<Graph as Index<NodeIndex>>::index"] = M["<Graph as Index>::index"] = pg_index
 
 
 @model("DfsSpace::new", "petgraph::algo::DfsSpace::new")
